@@ -298,6 +298,24 @@ def user_array(a, mode=None):
     return a
 
 
+def solver_library_error(e):
+    """True when an exception comes out of a solver library (not out of RSOME's own code): the
+    innermost Python frame is outside the rsome package, or it is a GurobiError.  Such an
+    exception is a solver-level failure (e.g. Gurobi status NUMERIC without a solution makes
+    the retrieval of X raise) and says nothing about the property being monitored."""
+    import traceback
+    if type(e).__name__ == 'GurobiError':
+        return True
+    tb = traceback.extract_tb(e.__traceback__)
+    if not tb:
+        return False
+    inner = tb[-1].filename
+    in_rsome = (os.sep + 'rsome' + os.sep) in inner and 'site-packages' not in inner
+    in_harness = (os.sep + 'rv' + os.sep) in inner
+    return not in_rsome and not in_harness and any(
+        k in inner for k in ('gurobipy', 'ortools', 'ecos', 'highspy', '_highs'))
+
+
 def definitive_failure(sname, status):
     """True when the interface's status says infeasible/unbounded (not a numerical give-up)."""
     st = str(status)
